@@ -75,7 +75,7 @@ def _sub_non_months():
     return [S("foo"), S("{jan}"), S("13"), S(""), S("janu"), I(0), I(13), I(-1), Num.ZERO, Num.THIRTEEN, T(("jan",))]
 
 
-NON_MONTHS = NON_MONTHS + _sub_non_months()
+NON_MONTHS = NON_MONTHS + _sub_non_months() + [10**4300, 10**5000, -(10**5000)]  # ints Python refuses to turn into text (F31)
 
 
 def expected(name, m):
@@ -259,23 +259,30 @@ def check_chains(m, acc):
                     acc.violation({"oracle": "apply_edit_apply", "middleware": name}, {"case": {"value": v, "edit_then": name, "inplace": inplace}, "observed": repr(res), "expected": repr(exp)})
 
 
+def _r(v):
+    try:
+        return repr(v)
+    except ValueError:  # an int beyond Python's int-to-text limit
+        return f"<int of {v.bit_length()} bits>"
+
+
 def check_unchanged(values, acc, exception_only=False):
     for v in values:
         for inplace in (True, False):
             for name, M in MWS:
                 shown = v if not isinstance(v, str) or len(v) < 40 else v[:20] + f"...({len(v)} chars)"
-                case = {"value": repr(shown), "middleware": name, "inplace": inplace}
-                acc.case(nontrivial_key=("non", repr(v)[:60], name, inplace))
+                case = {"value": _r(shown), "middleware": name, "inplace": inplace}
+                acc.case(nontrivial_key=("non", _r(v)[:60], name, inplace))
                 r = run(M, v, inplace, acc, case)
                 if r is None or exception_only:
                     continue
                 res, sideok = r
-                acc.step(("v", repr(v)[:60]), name, canon(res) if not isinstance(res, Field) else "FIELD")
+                acc.step(("v", _r(v)[:60]), name, _r(res)[:80])
                 same = (res is v) if inplace else (type(res) is type(v) and (res == v or res != res))
                 if not same:
                     acc.violation(
                         {"oracle": "non_month_unchanged", "middleware": name, "value_type": type(v).__name__},
-                        {"case": case, "observed": repr(res)[:100], "expected": repr(v)[:100]},
+                        {"case": case, "observed": _r(res)[:100], "expected": _r(v)[:100]},
                     )
                 elif not sideok:
                     acc.violation({"oracle": "other_fields_and_blocks_untouched", "middleware": name}, {"case": case, "observed": "changed", "expected": "unchanged"})
